@@ -41,18 +41,39 @@ type WriteRec struct {
 	Failed bool
 }
 
+// world holds no maps and uses no copy(): runtime map and slicecopy helpers
+// carry race-detector hooks that would report the shim itself.
 type world struct {
-	listeners map[string]*TCPListener
+	listeners []*TCPListener
 	conns     []*TCPConn
 	stepCtr   int
 }
 
-var w = &world{listeners: map[string]*TCPListener{}}
+var w = &world{}
+
+//go:norace
+func (x *world) find(addr string) *TCPListener {
+	for _, l := range x.listeners {
+		if l.addr == addr && !l.closed {
+			return l
+		}
+	}
+	return nil
+}
+
+//go:norace
+func clone(b []byte) []byte {
+	out := make([]byte, len(b))
+	for i := range b {
+		out[i] = b[i]
+	}
+	return out
+}
 
 // Reset forgets every listener and connection (called per execution).
 //
 //go:norace
-func Reset() { w = &world{listeners: map[string]*TCPListener{}} }
+func Reset() { w = &world{} }
 
 // Conns lists every connection created in this execution, in dial order.
 //
@@ -80,11 +101,11 @@ func listen(a string) (*TCPListener, error) {
 	if vs.Active() {
 		vs.Yield("listen", 0)
 	}
-	if _, ok := w.listeners[a]; ok {
+	if w.find(a) != nil {
 		return nil, &net.OpError{Op: "listen", Net: "tcp", Err: syscall.EADDRINUSE}
 	}
 	l := &TCPListener{id: vs.NewObj(), addr: a}
-	w.listeners[a] = l
+	w.listeners = append(w.listeners, l)
 	return l, nil
 }
 
@@ -125,7 +146,6 @@ func (l *TCPListener) Accept() (net.Conn, error) {
 //go:norace
 func (l *TCPListener) Close() error {
 	l.closed = true
-	delete(w.listeners, l.addr)
 	return nil
 }
 
@@ -166,7 +186,14 @@ func (c *TCPConn) Read(b []byte) (int, error) {
 	}
 	if len(c.in) > 0 {
 		chunk := c.in[0]
-		n := copy(b, chunk)
+		n := len(chunk)
+		if n > len(b) {
+			n = len(b)
+		}
+		for i := 0; i < n; i++ {
+			b[i] = chunk[i]
+		}
+		vs.RaceWriteRange(b[:n]) // the read syscall writes the caller's buffer
 		if n < len(chunk) {
 			c.in[0] = chunk[n:]
 		} else {
@@ -187,8 +214,8 @@ func (c *TCPConn) Write(b []byte) (int, error) {
 	if c.closed {
 		return 0, &net.OpError{Op: "write", Net: "tcp", Err: net.ErrClosed}
 	}
-	cp := make([]byte, len(b))
-	copy(cp, b)
+	cp := clone(b)
+	vs.RaceReadRange(b) // the write syscall reads the caller's buffer
 	name := ""
 	if t := vs.Self(); t != nil {
 		name = t.Name
@@ -241,7 +268,7 @@ type Peer struct{ C *TCPConn }
 type dialWaiter struct{ addr string }
 
 //go:norace
-func (d dialWaiter) Ready() bool { _, ok := w.listeners[d.addr]; return ok }
+func (d dialWaiter) Ready() bool { return w.find(d.addr) != nil }
 
 // NewConn makes a connection that is not attached to any listener (used to
 // hand a scripted net.Conn to code that takes one directly).
@@ -258,7 +285,7 @@ func NewConn() *Peer {
 //go:norace
 func Dial(addr string) *Peer {
 	vs.Block(&vs.Op{Kind: "dial", W: dialWaiter{addr}})
-	l := w.listeners[addr]
+	l := w.find(addr)
 	c := &TCPConn{id: vs.NewObj(), Index: len(w.conns)}
 	w.conns = append(w.conns, c)
 	l.queue = append(l.queue, c)
@@ -273,9 +300,7 @@ func (p *Peer) Send(chunk []byte) {
 	if vs.Active() {
 		vs.Block(&vs.Op{Kind: "psend", Obj: p.C.id})
 	}
-	cp := make([]byte, len(chunk))
-	copy(cp, chunk)
-	p.C.in = append(p.C.in, cp)
+	p.C.in = append(p.C.in, clone(chunk))
 }
 
 //go:norace
